@@ -22,6 +22,9 @@ BUNDLES: Dict[str, dict] = {
     "B3": {"sigs": [["z", 1, "sig"]], "subs": [["lo", "B1", False], ["hi", "B1", False]], "roles": None},
     "B4": {"sigs": [["c", 3, "inout"]], "subs": [["f", "B2", True], ["g", "B2", False]], "roles": None},
     "B5": {"sigs": [["tx", 1, ["role", "HOST", "DEV"]], ["rx", 2, ["role", "DEV", "HOST"]]], "subs": [], "roles": ["HOST", "DEV"]},
+    "B7": {"sigs": [["b", 1, "sig"], ["c", 2, "sig"]], "subs": [], "roles": None},
+    # ambiguous flattened names: member `a_b` vs sub-bundle `a` with member `b`
+    "B6": {"sigs": [["a_b", 1, "sig"]], "subs": [["a", "B7", False]], "roles": None},
     "Diff": {"sigs": [["p", 1, ["role", "SOURCE", "SINK"]], ["n", 1, ["role", "SOURCE", "SINK"]]], "subs": [],
              "roles": ["SOURCE", "SINK"], "builtin": "Diff"},
 }
@@ -311,7 +314,7 @@ def structural_designs() -> Iterator[Tuple[str, dict]]:
         yield (f"noconn-{variant}", {"bundles": B(), "modules": mods + [top], "top": "T"})
 
     # --- bundles ------------------------------------------------------------------------------------
-    for bname in ("B1", "B2", "B3", "B4", "B5"):
+    for bname in ("B1", "B2", "B3", "B4", "B5", "B6"):
         leaves = refsem.bundle_leaves({"bundles": BUNDLES}, bname)
         # a child exposing the bundle as a port and tying every leaf to a leaf device
         cin = []
